@@ -46,6 +46,7 @@ func flowPart(run *Run, ss *shardSet) {
 		"WINDOW_UPDATEs and SETTINGS changes of the initial window (up and down) and of the max frame size in random order; one sender per connection " +
 		"(exact DATA frame trace compared with the model) or 2-3 concurrent senders (safety and liveness checked by the peer, byte totals compared with the model); " +
 		"(g) a peer that pushes a window beyond 2^31-1 by WINDOW_UPDATE (stream, connection) or by raising the initial window: the window must stay as it was (connection error, or ignored by the client's SETTINGS processing). " +
+		"(h) scripted negative-window sequences: the stream window is used up (body > window), SETTINGS_INITIAL_WINDOW_SIZE drops below the bytes already sent (negative send window), then stream WINDOW_UPDATEs lead it negative->negative, negative->zero, zero->positive or negative->positive, alone or combined with an exhausted connection window updated before / after; after every step the bytes MOSN is entitled to must arrive within 2 s and the body must complete once the credit covers it. " +
 		"A connection case is non-trivial when the sender had to wait for credit at least once; distinct by the full script."
 	flowFnPart(run, ss, run.N(400, 4000))
 	t0 := time.Now()
@@ -72,6 +73,14 @@ func flowPart(run *Run, ss *shardSet) {
 			sd = "client"
 		}
 		flowOverflowCase(run, ss, sd, i/2)
+	}
+	nn := run.N(72, 720)
+	for i := 0; i < nn; i++ {
+		sd := "server"
+		if i%2 == 1 {
+			sd = "client"
+		}
+		flowNegativeCase(run, ss, sd, i/2)
 	}
 	run.Sum.Extra["flow_conn_seconds"] = time.Since(t0).Seconds()
 }
@@ -274,7 +283,10 @@ type flowRig struct {
 	script  []string   // replay
 	frames  [][2]int64 // DATA frames (sid, len) since the last takeFrames
 	failed  bool
-	strict  bool // several senders: keep the CREDITS (not only the windows) within 2^31-1, so that no scheduling of the senders makes a frame of the peer illegal
+	liveSig string                 // when set: signature of a liveness failure in settle (scripted negative-window cases)
+	wait    time.Duration          // watchdog of settle (default 3 s)
+	meta    map[string]interface{} // extra replay fields
+	strict  bool                   // several senders: keep the CREDITS (not only the windows) within 2^31-1, so that no scheduling of the senders makes a frame of the peer illegal
 }
 
 func newFlowRig(run *Run, side string) *flowRig {
@@ -293,7 +305,11 @@ func newFlowRig(run *Run, side string) *flowRig {
 
 func (r *flowRig) fail(sig, what string) {
 	r.failed = true
-	r.run.Fail(sig, what, map[string]interface{}{"side": r.side, "script": append([]string(nil), r.script...)})
+	rep := map[string]interface{}{"side": r.side, "script": append([]string(nil), r.script...)}
+	for k, v := range r.meta {
+		rep[k] = v
+	}
+	r.run.Fail(sig, what, rep)
 }
 
 // feed hands the frames the peer just built to MOSN's real frame reader and handler.
@@ -411,6 +427,9 @@ func (r *flowRig) settle(kind string) {
 	r.poll()
 	want := r.total + r.entitled()
 	wait := 3 * time.Second
+	if r.wait != 0 {
+		wait = r.wait
+	}
 	if flowLivenessFailures >= 3 {
 		wait = 500 * time.Millisecond // the finding is recorded; do not spend minutes on its repetitions
 	}
@@ -425,10 +444,18 @@ func (r *flowRig) settle(kind string) {
 	}
 	if r.total < want {
 		flowLivenessFailures++
-		r.fail("flow:body-not-delivered-after-credit:"+r.side+":"+kind,
+		sig := "flow:body-not-delivered-after-credit:" + r.side + ":" + kind
+		if r.liveSig != "" {
+			sig = r.liveSig
+		}
+		r.fail(sig,
 			fmt.Sprintf("after %s MOSN is entitled to %d more DATA bytes; they did not arrive within %v (%d bytes received so far)", kind, want-r.total, wait, r.total))
 		return
 	}
+	// Everything MOSN was entitled to has arrived; every unfinished sender will now find available() <= 0 and park.
+	// Wait until it HAS parked (goroutine state sync.Cond.Wait inside awaitFlowControl): only then is the next frame of
+	// the peer a wake-up test - a sender still on its way to cond.Wait would see the new window by itself.
+	r.waitParked()
 	// the take precedes the write: once the entitled bytes are here the windows must be exactly credit - sent
 	for _, sid := range r.order {
 		st := r.streams[sid]
@@ -446,6 +473,51 @@ func (r *flowRig) settle(kind string) {
 					sid, sw, cw, r.init+st.incs-st.recv, r.connCr-r.total))
 			}
 		}
+	}
+}
+
+// flowParkedSenders counts the goroutines that sit in cond.Wait of an awaitFlowControl (server or client).
+func flowParkedSenders() int {
+	buf := make([]byte, 1<<18)
+	n := runtime.Stack(buf, true)
+	cnt := 0
+	for _, g := range strings.Split(string(buf[:n]), "\n\n") {
+		if !strings.Contains(g, "awaitFlowControl") {
+			continue
+		}
+		hdr := g
+		if i := strings.IndexByte(g, '\n'); i >= 0 {
+			hdr = g[:i]
+		}
+		if strings.Contains(hdr, "sync.Cond.Wait") {
+			cnt++
+		}
+	}
+	return cnt
+}
+
+// senders of abandoned cases that could not be collected (they stay parked for the rest of the run)
+var flowLeakedSenders int
+
+func (r *flowRig) waitParked() {
+	want := flowLeakedSenders
+	for _, sid := range r.order {
+		st := r.streams[sid]
+		if st.win != nil && st.recv < int64(len(st.body)) {
+			want++
+		}
+	}
+	if want == flowLeakedSenders {
+		return
+	}
+	deadline := time.Now().Add(300 * time.Millisecond)
+	for flowParkedSenders() < want {
+		if time.Now().After(deadline) {
+			r.run.Sum.Distribution["flow:park-not-observed"]++
+			return
+		}
+		runtime.Gosched()
+		time.Sleep(20 * time.Microsecond)
 	}
 }
 
@@ -689,6 +761,7 @@ func (r *flowRig) finish() {
 				r.fail("flow:sender-error:"+r.side, fmt.Sprintf("stream %d: sender returned %v", sid, err))
 			}
 		case <-time.After(3 * time.Second):
+			flowLeakedSenders++
 			if !r.failed {
 				r.fail("flow:body-not-delivered-after-credit:"+r.side+":end", fmt.Sprintf("stream %d: sender did not return after the whole body was granted", sid))
 			}
@@ -716,6 +789,9 @@ func (r *flowRig) abandon() {
 			r.feed()
 		}
 	}
+	// SETTINGS processing broadcasts (should a WINDOW_UPDATE above not have woken a sleeping sender)
+	r.wr.WriteSettings(xh2.Setting{ID: xh2.SettingMaxFrameSize, Val: uint32(r.mfs)})
+	r.feed()
 	for _, sid := range r.order {
 		st := r.streams[sid]
 		if st.win == nil {
@@ -724,6 +800,7 @@ func (r *flowRig) abandon() {
 		select {
 		case <-st.done:
 		case <-time.After(time.Second):
+			flowLeakedSenders++
 		}
 	}
 }
@@ -987,4 +1064,139 @@ func flowOverflowCase(run *Run, ss *shardSet, side string, idx int) {
 	ss.add("flowo", flowHeader, "flow_case", "flow_mismatches", 60, term, map[string]interface{}{"side": side, "script": r.script})
 	run.Count("flowo:"+term, true, "flow:overflow:"+side+":"+attack.kind)
 	r.abandon()
+}
+
+// flowNegativeCase: scripted sequences around a NEGATIVE stream send window.  The sender uses up its window and
+// parks; the peer lowers SETTINGS_INITIAL_WINDOW_SIZE below the bytes already sent (RFC 7540 6.9.2: the window
+// becomes negative); stream WINDOW_UPDATEs then lift it in several ways.  Whatever the path, once the credit
+// covers the body the body must be completed: a WINDOW_UPDATE that makes a non-positive window positive has to
+// wake the sender.  Finder signature flow:body-not-completed-although-credit-arrived:<side>; the traces also go to
+// the model shards (flow_mismatches, source switches from Gen).
+func flowNegativeCase(run *Run, ss *shardSet, side string, idx int) {
+	R := run.R
+	r := newFlowRig(run, side)
+	r.liveSig = "flow:body-not-completed-although-credit-arrived:" + side
+	r.wait = 2 * time.Second
+	variant := idx % 6
+	names := []string{"neg->pos", "neg->neg,neg->0,0->pos", "neg->neg,neg->pos", "neg->0,0->pos", "conn 0->pos then stream neg->pos", "stream neg->pos then conn 0->pos"}
+	sid := uint32(1)
+	var groups []string
+	group := func(evs []string) {
+		fr := r.takeFrames()
+		w := "None"
+		if st := r.streams[sid]; st != nil && st.win != nil {
+			sw, cw := st.win()
+			w = fmt.Sprintf("(Some (%s, %s, %s))", CoqZ(int64(sid)), CoqZ(int64(sw)), CoqZ(int64(cw)))
+		}
+		evs = append(evs, sendEvents(sid, len(fr))...)
+		groups = append(groups, fmt.Sprintf("(%s, %s, %s)", CoqList(evs), coqFrames(fr), w))
+	}
+	step := func(e flowEv) bool {
+		if err := r.apply(e); err != nil {
+			r.fail("flow:credit-rejected:"+side+":"+e.kind, fmt.Sprintf("%s sid=%d v=%d within the legal window range was answered with %v", e.kind, e.sid, e.v, err))
+			return false
+		}
+		r.settle(e.kind)
+		group([]string{e.coq()})
+		return !r.failed
+	}
+	connCombined := variant >= 4
+	w0 := []int64{16384, 20000, 65535, 30000}[(idx/6)%4]
+	if connCombined {
+		w0 = 65535 // equals the initial connection window: both are used up together
+	}
+	bodyLen := []int{70000, 100000, 200000}[(idx/24+idx)%3]
+	mfs0 := flowMfs[R.Intn(len(flowMfs))]
+	r.meta = map[string]interface{}{"body": bodyLen, "settings": map[string]int64{"initial_window": w0, "max_frame_size": mfs0}, "variant": names[variant]}
+	var pre []string
+	for _, e := range []flowEv{{kind: "init", v: w0}, {kind: "mfs", v: mfs0}} {
+		if err := r.apply(e); err != nil {
+			r.fail("flow:settings-rejected:"+side, fmt.Sprintf("%s %d: %v", e.kind, e.v, err))
+			return
+		}
+		pre = append(pre, e.coq())
+	}
+	if !connCombined {
+		e := flowEv{kind: "wuconn", v: int64(1 << 20)}
+		r.apply(e)
+		pre = append(pre, e.coq())
+	}
+	body := R.Bytes(bodyLen)
+	if !r.open(sid, body) {
+		return
+	}
+	pre = append(pre, fmt.Sprintf("EOpen %s %s", CoqZ(int64(sid)), CoqZ(int64(bodyLen))))
+	r.settle("open")
+	group(pre)
+	st := r.streams[sid]
+	if r.failed || st.recv != w0 {
+		r.abandon()
+		return
+	}
+	// the peer lowers the initial window below what was sent: negative send window
+	low := []int64{0, 1, 1000, w0 / 2, w0 - 1}[R.Intn(5)]
+	if !step(flowEv{kind: "init", v: low}) {
+		r.abandon()
+		return
+	}
+	neg := r.init + st.incs - st.recv // < 0
+	up := 1 + int64(R.Intn(40000))    // where the window ends up above zero
+	part := 1 + int64(R.Intn(int(-neg)-1+1))
+	if part >= -neg {
+		part = -neg - 1
+	}
+	var path []flowEv
+	switch variant {
+	case 0:
+		path = []flowEv{{kind: "wu", sid: sid, v: -neg + up}}
+	case 1:
+		if part >= 1 {
+			path = append(path, flowEv{kind: "wu", sid: sid, v: part})
+		} else {
+			part = 0
+		}
+		path = append(path, flowEv{kind: "wu", sid: sid, v: -neg - part}, flowEv{kind: "wu", sid: sid, v: up})
+	case 2:
+		if part >= 1 {
+			path = append(path, flowEv{kind: "wu", sid: sid, v: part})
+		} else {
+			part = 0
+		}
+		path = append(path, flowEv{kind: "wu", sid: sid, v: -neg - part + up})
+	case 3:
+		path = []flowEv{{kind: "wu", sid: sid, v: -neg}, {kind: "wu", sid: sid, v: up}}
+	case 4:
+		path = []flowEv{{kind: "wuconn", v: 1 + int64(R.Intn(100000))}, {kind: "wu", sid: sid, v: -neg + up}}
+	default:
+		path = []flowEv{{kind: "wu", sid: sid, v: -neg + up}, {kind: "wuconn", v: 1 + int64(R.Intn(100000))}}
+	}
+	for _, e := range path {
+		if !step(e) {
+			r.abandon()
+			return
+		}
+	}
+	// release the rest: the credit ends up covering the body, which then has to be completed
+	for steps := 0; !r.failed && !r.allDone() && steps < 64; steps++ {
+		e := r.nextCredit(true)
+		if e.kind == "init" || e.kind == "mfs" {
+			continue
+		}
+		if !step(e) {
+			break
+		}
+	}
+	if r.failed {
+		r.abandon()
+		return
+	}
+	if !r.allDone() {
+		r.fail(r.liveSig, "the script ran out of steps before the body was complete")
+		r.abandon()
+		return
+	}
+	r.finish()
+	term := fmt.Sprintf("(%s, %s)", coqSide(side), CoqList(groups))
+	ss.add("flown", flowHeader, "flow_case", "flow_mismatches", 60, term, map[string]interface{}{"side": side, "script": r.script, "variant": names[variant]})
+	run.Count("flown:"+term, true, "flow:negative:"+side, "flow:negative:"+names[variant])
 }
